@@ -84,11 +84,21 @@ fn gen_text(t: &mut Tape, n: &Names) -> String {
       s.push_str("/** documented */\n");
     }
     s.push_str(&format!("{}class {cls}(val {}: int) {{\n", if private { "private " } else { "" }, n.field()));
+    // doc comments on members: hover in an importing module shows them
+    let doc = |t: &mut Tape, s: &mut String| {
+      match t.weighted(&[4, 2, 1]) {
+        1 => s.push_str("  /** documented member */\n"),
+        2 => s.push_str("  /** first doc */\n  // a line comment\n  /** second doc with a longer text */\n"),
+        _ => {}
+      }
+    };
+    doc(t, &mut s);
     match t.weighted(&[6, 2, 1]) {
       0 => s.push_str(&format!("  function {}(): {cls} = {cls}.init(0)\n\n", n.make())),
       1 => s.push_str(&format!("  function {}(): int = 0\n\n", n.make())),
       _ => {}
     }
+    doc(t, &mut s);
     match t.weighted(&[6, 2, 1]) {
       0 => s.push_str(&format!("  method {}(): int = this.{}\n\n", n.get(), n.field())),
       1 => s.push_str(&format!("  method {}(): bool = true\n\n", n.get())),
@@ -193,7 +203,15 @@ fn gen_history(t: &mut Tape, with_queries: bool, max_ops: usize) -> Value {
         // positions: on an identifier character most of the time, anywhere (also outside the text) otherwise
         let (line, col) = if t.bool(3, 4) && !text.is_empty() {
           let idents: Vec<(usize, usize)> = lines.iter().enumerate().flat_map(|(li, l)| l.char_indices().filter(|(_, c)| c.is_ascii_alphanumeric()).map(move |(ci, _)| (li, ci))).collect();
-          if idents.is_empty() { (0, 0) } else { idents[t.choose(idents.len())] }
+          // member names (right after a `.`) are where cross-module lookups happen
+          let members: Vec<(usize, usize)> = lines.iter().enumerate().flat_map(|(li, l)| l.char_indices().filter(|(_, c)| *c == '.').map(move |(ci, _)| (li, ci + 1))).collect();
+          if !members.is_empty() && t.bool(1, 3) {
+            members[t.choose(members.len())]
+          } else if idents.is_empty() {
+            (0, 0)
+          } else {
+            idents[t.choose(idents.len())]
+          }
         } else {
           let line = t.choose(lines.len() + 3);
           (line, t.choose(lines.get(line).map(|l| l.len()).unwrap_or(0) + 4))
@@ -281,6 +299,63 @@ fn gen_history_rich(t: &mut Tape, tier: Tier, max_ops: usize) -> Value {
     }
   }
   json!({"initial": initial, "ops": ops, "rich": true})
+}
+
+/// histories whose module contents come from the grammar-based generator (G5) with long
+/// (heap-allocated, collectable) identifiers in every identifier position and comments
+fn gen_history_syntactic(t: &mut Tape, max_ops: usize) -> Value {
+  use crate::generators::syngen::{Layout, SynCfg, gen_module};
+  let names: [&[&str]; 4] = [&["A"], &["B"], &["lib", "C"], &["AModuleWithAVeryLongName"]];
+  let name = |i: usize| -> Vec<String> { names[i % 4].iter().map(|s| s.to_string()).collect() };
+  let text = |t: &mut Tape| -> String {
+    let cfg = SynCfg { layout: Layout::Plain, comment_permille: if t.bool(1, 3) { 60 } else { 0 }, budget: 15 + t.small_len(70) as i32, non_ascii: false, long_lines: false, long_idents: t.bool(3, 4) };
+    gen_module(t, cfg)
+  };
+  let mut texts: Vec<Option<String>> = vec![None; 4];
+  let mut initial = vec![];
+  for i in 0..4 {
+    if t.bool(1, 2) {
+      let x = text(t);
+      initial.push(json!({"name": name(i), "text": x}));
+      texts[i] = Some(x);
+    }
+  }
+  let n_ops = 1 + t.choose(max_ops);
+  let mut ops = vec![];
+  for _ in 0..n_ops {
+    match t.weighted(&[5, 1, 1, 12]) {
+      0 => {
+        let i = t.choose(4);
+        let x = text(t);
+        texts[i] = Some(x.clone());
+        ops.push(json!({"op": "update", "mods": [{"name": name(i), "text": x}]}));
+      }
+      1 => {
+        let (a, b) = (t.choose(4), t.choose(4));
+        if a != b && texts[a].is_some() {
+          texts[b] = texts[a].take();
+        }
+        ops.push(json!({"op": "rename", "pairs": [[name(a), name(b)]]}));
+      }
+      2 => {
+        let a = t.choose(4);
+        texts[a] = None;
+        ops.push(json!({"op": "remove", "names": [name(a)]}));
+      }
+      _ => {
+        let live: Vec<usize> = (0..4).filter(|i| texts[*i].is_some()).collect();
+        let m = if !live.is_empty() && t.bool(9, 10) { live[t.choose(live.len())] } else { t.choose(4) };
+        let x = texts[m].clone().unwrap_or_default();
+        let lines: Vec<&str> = x.split('\n').collect();
+        let idents: Vec<(usize, usize)> = lines.iter().enumerate().flat_map(|(li, l)| l.char_indices().filter(|(_, c)| c.is_ascii_alphanumeric() || *c == '.' || *c == '(').map(move |(ci, _)| (li, ci))).collect();
+        let (line, col) = if idents.is_empty() || t.bool(1, 10) { (t.choose(lines.len() + 2), t.choose(40)) } else { idents[t.choose(idents.len())] };
+        let q = ["hover", "completion", "signature", "definition", "references", "rename", "code-actions", "format", "folding"][t.weighted(&[3, 3, 2, 3, 3, 4, 2, 4, 1])];
+        let new_name = ["renamed", "aRenamedVariableWithAVeryLongName", "x"][t.choose(3)];
+        ops.push(json!({"op": "query", "kind": q, "module": name(m), "line": line, "col": col, "end_col": col + t.choose(6), "new_name": new_name}));
+      }
+    }
+  }
+  json!({"initial": initial, "ops": ops, "syntactic": true})
 }
 
 // ------------------------------------------------------------------------------- interpretation
@@ -502,7 +577,7 @@ impl Prop for C11 {
     "C11"
   }
   fn rule(&self) -> String {
-    "two workspace kinds. (1, 2 cases in 3) C10's histories (updates, creations, renames, removals over six module names with valid, ill-typed, empty and unparsable contents, short or long heap-allocated identifiers; every edit runs a GC slice) interleaved with requests - hover, completion, signature help, go to definition, find references, rename (valid, long, capitalised, empty and spaced new names), code actions over a range, format, folding ranges - at identifier characters (3 in 4) or anywhere up to 3 lines / 4 columns outside the text, on live, never-edited, renamed, removed and never-existing modules. (2, 1 case in 3) a G1 generated program (every language construct: generics, interfaces, lambdas and closures, patterns, match, method references...) together with the std modules it imports, edited by single-fault mutants of its modules (22 fault kinds), module renames and removals, with requests at identifier / `.` / `(` positions of user and std modules; oracle: no call aborts (every call runs under catch_unwind; a panic is a violation keyed by its source location); non-trivial = >=1 edit and >=3 requests; distinct = hash of the history".into()
+    "three workspace kinds. (1, 4 cases in 10) C10's histories (updates, creations, renames, removals over six module names with valid, ill-typed, empty and unparsable contents, short or long heap-allocated identifiers; every edit runs a GC slice) interleaved with requests - hover, completion, signature help, go to definition, find references, rename (valid, long, capitalised, empty and spaced new names), code actions over a range, format, folding ranges - at identifier characters (3 in 4) or anywhere up to 3 lines / 4 columns outside the text, on live, never-edited, renamed, removed and never-existing modules. (2, 3 in 10) a G1 generated program (every language construct: generics, interfaces, lambdas and closures, patterns, match, method references...) together with the std modules it imports, edited by single-fault mutants of its modules (22 fault kinds), module renames and removals, with requests at identifier / `.` / `(` positions of user and std modules. (3, 3 in 10) four modules whose contents come from the grammar-based generator G5 (every production of the grammar, mostly ill-typed) with comments and, 3 times in 4, identifiers longer than the heap's inline capacity in every identifier position (unused parameters, fields, type parameters, pattern variables, imports ...), replaced, renamed and removed, with requests at identifier positions; oracle: no call aborts (every call runs under catch_unwind; a panic is a violation keyed by its source location); non-trivial = >=1 edit and >=3 requests; distinct = hash of the history".into()
   }
   fn assumptions(&self) -> Vec<String> {
     vec![
@@ -517,7 +592,12 @@ impl Prop for C11 {
     }
   }
   fn generate(&self, t: &mut Tape, tier: Tier) -> Value {
-    if t.bool(1, 3) { gen_history_rich(t, tier, if tier == Tier::Quick { 40 } else { 120 }) } else { gen_history(t, true, if tier == Tier::Quick { 40 } else { 120 }) }
+    let max_ops = if tier == Tier::Quick { 40 } else { 120 };
+    match t.weighted(&[4, 3, 3]) {
+      0 => gen_history(t, true, max_ops),
+      1 => gen_history_rich(t, tier, max_ops),
+      _ => gen_history_syntactic(t, max_ops),
+    }
   }
   fn check(&self, art: &Value) -> Outcome {
     let mut out = Outcome::default();
@@ -562,6 +642,8 @@ impl Prop for C11 {
     out.nontrivial = edits >= 1 && queries >= 3;
     if art["rich"] == true {
       out.label("workspace:G1-program+std");
+    } else if art["syntactic"] == true {
+      out.label("workspace:grammar-generated-modules");
     } else {
       out.label("workspace:module-pool");
     }
